@@ -16,23 +16,8 @@ LexCandsOf(L, lt, s, p) ==
        i \in {i \in 1..Len(L) : IsPrefixAt(L[i].s, s, p)}}
 LexCands(D, s, p) == LexCandsOf(D.lex, 0, s, p) \cup LexCandsOf(D.user, 1, s, p)
 
-(* ---- unknown-word ends, code-shaped (UnkHandler::gen_unk_words) ---- *)
-UnkEnds(ci, g, p, n, matched, mgl) ==
-   IF matched /\ ci.invoke = 0 THEN {}
-   ELSE LET grp  == IF ci.group = 1 /\ (mgl = 0 \/ g - 1 <= mgl) THEN {p + g} ELSE {}
-            lens == {p + i : i \in {i \in 1..Min2(ci.length, g) : ~(ci.group = 1 /\ i = g)}}
-        IN IF grp \cup lens = {} /\ ~matched THEN {p + 1} ELSE grp \cup lens
-
-(* ---- the same rule, written after the sentence of property C03 ---- *)
-UnkEndsDecl(ci, g, p, n, matched, mgl) ==
-   LET none    == matched /\ ci.invoke = 0
-       runOK   == ci.group = 1 /\ ~(mgl # 0 /\ g > mgl + 1)
-       run     == IF runOK THEN {p + g} ELSE {}
-       prefs   == {p + k : k \in {k \in 1..g : k <= ci.length /\ ~(ci.group = 1 /\ k = g)}}
-       some    == run \cup prefs
-   IN IF none THEN {}
-      ELSE IF some # {} THEN some
-      ELSE IF matched THEN {} ELSE {p + 1}
+(* the unknown-word rule itself (UnkEnds, UnkEndsDecl) lives in VUnkRule, a module without
+   RECURSIVE operators, so that TLAPS can prove facts about the very definitions used here *)
 
 Cands(D, s, p, mgl, bt, gt) ==
    LET lc == LexCands(D, s, p)
